@@ -289,8 +289,18 @@ def r2_r3_r4(ctx, sch):
     ad = [c for c in calls_in(dm.node) if call_attr(c) == "_add_duplicate"]
     ctx.ob("R4", len(ad) >= 1, "a non-mergeable newcomer is recorded in `duplicates` (so later arrivals can find it)", func=dm,
            sig="duplicate bookkeeping present" if ad else "the dispatcher never records a renamed newcomer in `duplicates`")
+    dcfg = cfg_of(dm)
     for c in ad:
         a0 = _resolve_local(c.args[0], dm) if c.args else None
+        # the colliding key must be captured BEFORE the recursive create_unique dispatch renames the feature in place
+        renames = [x for x in calls_in(dm.node) if call_attr(x) == "_do_merge"]
+        captured = False
+        if c.args and isinstance(c.args[0], ast.Name):
+            asg = [n for n in ast.walk(dm.node) if isinstance(n, ast.Assign) and is_name(n.targets[0], c.args[0].id)]
+            captured = len(asg) == 1 and norm(asg[0].value) == "f.id" and renames and all(
+                dcfg.dominates(dcfg.node_for(asg[0]).id, dcfg.node_for(x).id) and dcfg.node_for(asg[0]).id != dcfg.node_for(x).id for x in renames)
+        ctx.ob("R4", captured, "the colliding key recorded in `duplicates` is the key as it was before the newcomer was renamed", node=c, func=dm,
+               sig="colliding key captured before the rename" if captured else "colliding key read after (or without) the rename: _add_duplicate(%s, ...)" % (norm(c.args[0]) if c.args else "?"))
         ok = len(c.args) == 2 and a0 is not None and norm(a0) == "f.id" and norm(c.args[1]).endswith(".id") and norm(c.args[1]) != "f.id"
         # a0 must be read BEFORE the rename: the local must be assigned before the recursive create_unique call
         ctx.ob("R4", ok, "a non-mergeable newcomer is remembered as (colliding key, fresh key)", node=c, func=dm,
